@@ -66,6 +66,39 @@ fn check_prim(case: &Case, obs: &mut Obs) {
         if back != s && render(&back) != base {
             obs.fail("draw(translate(d))==shift(draw,d)", format!("moved by {:?} and back: {:?} instead of {:?}", case.d, back, s));
         }
+        // a real display has a finite box: object and display window moved together must give the moved picture
+        // inside the window; the windows lie just outside each side of the bare shape (only a stroke reaches them)
+        // and across its top-left and bottom-right corners
+        if sty.stroke && sty.w >= 1 && !base.is_empty() {
+            let pb = with_primitive!(&case.shape, |p| p.bounding_box());
+            let (x0, y0, w, h) = (pb.top_left.x, pb.top_left.y, pb.size.width as i32, pb.size.height as i32);
+            let wins = [(x0 - 3, y0 - 3, 3, h + 6), (x0 + w, y0 - 3, 3, h + 6), (x0 - 3, y0 - 3, w + 6, 3), (x0 - 3, y0 + h, w + 6, 3), (x0 - 2, y0 - 2, 4, 4), (x0 + w - 2, y0 + h - 2, 4, 4)];
+            obs.class("shape-and-window-moved-together");
+            for (k, wn) in wins.iter().enumerate() {
+                let win = rect(wn.0, wn.1, wn.2.max(0) as u32, wn.3.max(0) as u32);
+                let mwin = rect(wn.0 + d.x, wn.1 + d.y, wn.2.max(0) as u32, wn.3.max(0) as u32);
+                let ins = |m: &Map<C>, r: &Rectangle| -> Map<C> { m.iter().filter(|(k, _)| r.contains(Point::new(k.0, k.1))).map(|(k, v)| (*k, *v)).collect() };
+                let (a, b) = if k % 2 == 0 {
+                    let (mut a, mut b) = (RecD::<C>::with_box(win), RecD::<C>::with_box(mwin));
+                    let _ = s.draw(&mut a);
+                    let _ = moved.draw(&mut b);
+                    (ins(&a.map, &win), ins(&b.map, &mwin))
+                } else {
+                    let (mut a, mut b) = (RecN::<C>::with_box(win), RecN::<C>::with_box(mwin));
+                    let _ = s.draw(&mut a);
+                    let _ = moved.draw(&mut b);
+                    (ins(&a.map, &win), ins(&b.map, &mwin))
+                };
+                if a != ins(&base, &win) {
+                    obs.fail("draw(translate(d))==shift(draw,d)-inside-a-target-window", format!("unmoved shape in window {:?}: {}", wn, map_diff(&a, &ins(&base, &win))));
+                    break;
+                }
+                if b != shift_map(&a, d.x, d.y) {
+                    obs.fail("draw(translate(d))==shift(draw,d)-inside-a-target-window", format!("window {:?} moved with the shape: {}", wn, map_diff(&b, &shift_map(&a, d.x, d.y))));
+                    break;
+                }
+            }
+        }
         let bb = s.bounding_box();
         if !bb.is_zero_sized() {
             let tb = moved.bounding_box();
@@ -185,6 +218,31 @@ fn check_text(case: &TCase, obs: &mut Obs) {
     m.translate_mut(d);
     if m != moved {
         obs.fail("translate_mut==translate", "text".to_string());
+    }
+    // text and display window moved together: same picture inside the window, returned position moved by d
+    {
+        let p0 = t.position;
+        obs.class("text-and-window-moved-together");
+        for (k, wn) in [(p0.x - 2, p0.y - 9, 9u32, 12u32), (p0.x - 20, p0.y - 3, 22, 7), (p0.x + 3, p0.y - 30, 4, 60)].iter().enumerate() {
+            let win = rect(wn.0, wn.1, wn.2, wn.3);
+            let mwin = rect(wn.0 + d.x, wn.1 + d.y, wn.2, wn.3);
+            let ins = |m: &Map<C>, r: &Rectangle| -> Map<C> { m.iter().filter(|(k, _)| r.contains(Point::new(k.0, k.1))).map(|(k, v)| (*k, *v)).collect() };
+            let (ia, ib, pa, pb) = if k % 2 == 0 {
+                let (mut wa, mut wb) = (RecD::<C>::with_box(win), RecD::<C>::with_box(mwin));
+                let (pa, pb) = (t.draw(&mut wa).unwrap(), moved.draw(&mut wb).unwrap());
+                (ins(&wa.map, &win), ins(&wb.map, &mwin), pa, pb)
+            } else {
+                let (mut wa, mut wb) = (RecN::<C>::with_box(win), RecN::<C>::with_box(mwin));
+                let (pa, pb) = (t.draw(&mut wa).unwrap(), moved.draw(&mut wb).unwrap());
+                (ins(&wa.map, &win), ins(&wb.map, &mwin), pa, pb)
+            };
+            if ia != ins(&a.map, &win) || ib != shift_map(&ia, d.x, d.y) {
+                obs.fail("draw(translate(d))==shift(draw,d)-inside-a-target-window", format!("text, window {:?} moved with it: {}", wn, map_diff(&ib, &shift_map(&ia, d.x, d.y))));
+            }
+            if pa != ra || pb != ra + d {
+                obs.fail("text-next-position-shifts", format!("window {:?}: unmoved text returns {:?} (unbounded target {:?}), moved text {:?}", wn, pa, ra, pb));
+            }
+        }
     }
     // moved again from the moved place, and moved back
     let e = Point::new(-5, 9);
@@ -434,7 +492,7 @@ fn main() {
         assumptions: &["bounded to the listed catalogue and offsets (objects straddle the origin so the offsets move them across both axes)"],
         parts: |_| vec![PartSpec::new("shapes", "verif"), PartSpec::new("triangles", "verif"), PartSpec::new("polylines", "verif"), PartSpec::new("images-text", "verif"), PartSpec::new("dotted", "verif"), PartSpec::new("angles-fixed-point", "verif_fp")],
         run_part,
-        required_classes: |_| vec!["rect", "circle", "ellipse", "rrect", "triangle", "line", "arc", "sector", "polyline", "thick-triangle-or-polyline", "moved-across-y-axis", "moved-across-x-axis", "points-compared", "contains-compared", "text", "image", "image-through-a-target-window", "dotted-rectangle"],
+        required_classes: |_| vec!["rect", "circle", "ellipse", "rrect", "triangle", "line", "arc", "sector", "polyline", "thick-triangle-or-polyline", "moved-across-y-axis", "moved-across-x-axis", "points-compared", "contains-compared", "text", "image", "image-through-a-target-window", "dotted-rectangle", "shape-and-window-moved-together", "text-and-window-moved-together"],
         crash_is_verdict: false,
     })
 }
